@@ -5,6 +5,9 @@ import operator_common as O
 
 def run(res, tier, seed):
     res.trusted_base += [
+        'translator T3 (translate/t3_stencil.py): regenerates the four loop nests of GMGPolar::discretize_rhs_f (loop ranges, branch '
+        'conditions, the scaling factor) and the two residual macros into coq/gen/StencilGen.v on every run; StencilTie.v proves '
+        'them equal to rhs_weight / the operator model; validated by K-rhs and the K-matrix',
         'hand-written model coq/theories/StencilDefs.v (A_take_row, rhs_weight) tied by the K-matrix of C03 and by K-rhs: the private '
         'GMGPolar::discretize_rhs_f applied to a vector of ones on every sampled level with cached geometry, compared with rhs_weight node by node',
         'axioms under the R theorems: ClassicalDedekindReals.sig_forall_dec, sig_not_dec, FunctionalExtensionality.functional_extensionality_dep',
@@ -15,6 +18,10 @@ def run(res, tier, seed):
         'diffusion part on interior rows (with the exact defect across the origin), Dirichlet rhs rows, Richardson algebra',
         'the midpoint-nesting precondition of the extrapolation is C18',
     ]
+    for n, ok, msg in C.run_translators(['t3_stencil']):
+        res.obligation('translator:' + n, ok, msg[-300:])
+        if not ok:
+            res.fail('translator:' + n, msg)
     cr = C.coq_build('C02')
     res.add_coq(cr)
     out = O.run(res, tier, seed, 'residual', ('take', 'give1'))
